@@ -23,7 +23,7 @@ def variantOf (j : Json) : Option Variant :=
   | some "repaired" => some Variant.repaired
   | some "custom" => do
       let a ← getBool? j "metaTolerant"
-      let b ← getBool? j "resetAtSession"
+      let b ← getBool? j "resetAtComment"
       let c ← getBool? j "skipUnterminated"
       pure ⟨a, b, c⟩
   | _ => none
